@@ -58,6 +58,8 @@ MINI_DEFS = {
     "3912": {"DF002": "n", "ZUA": "", "ZZZ": ""},
     # malformed group body (a set where a dict is required): only reachable for count > 0
     "3914": {"DF002": "n", "ZUC": "", "ZUA": "", "g": ("ZUC", {"ZBA", "oops"})},
+    # "+1" counter looked up from TWO levels down (the suffix is the OUTER index, not the innermost)
+    "3915": {"DF002": "n", "g1": (2, {"ZUC": "", "g2": (2, {"g3": ("ZUC+1", {"ZBA": ""})})}), "ZUA": ""},
     # 4076_201-shaped computed counts (with shrunken IDF widths, see HARM_FIELDS)
     "3913": {
         "DF002": "n",
